@@ -42,12 +42,102 @@ func digestLines(s string) string {
 	return digestBytes([]byte(strings.Join(l, "\n")))
 }
 
+// opState is what one goroutine keeps between its calls: results it still holds. A result is the caller's; it must
+// read the same at the end of the list as when it was returned, whatever the other goroutines called meanwhile.
+type opState struct {
+	held []heldResult
+	n    int
+}
+
+type heldResult struct {
+	kind  string
+	parts [][]byte
+	dig   string
+}
+
+func (s *opState) keep(kind string, parts [][]byte) {
+	if s == nil || len(parts) == 0 {
+		return
+	}
+	h := heldResult{kind: kind, parts: parts, dig: digestParts(parts, nil)}
+	if len(s.held) < 32 {
+		s.held = append(s.held, h)
+	} else {
+		s.held[s.n%32] = h
+	}
+	s.n++
+}
+
+// audit returns a description of the first held result that no longer reads as it did when it was returned.
+func (s *opState) audit() (kind, msg string) {
+	if s == nil {
+		return "", ""
+	}
+	for _, h := range s.held {
+		if now := digestParts(h.parts, nil); now != h.dig {
+			first := ""
+			if len(h.parts) > 0 && len(h.parts[0]) > 0 {
+				first = hx(h.parts[0][:min(len(h.parts[0]), 12)])
+			}
+			return h.kind, fmt.Sprintf("a result of %s read %s when it was returned and reads %s now (first part begins %s)", h.kind, h.dig, now, first)
+		}
+	}
+	return "", ""
+}
+
+// texts several goroutines send at the same time (bulk traffic: the same wording to many recipients)
+var sharedTexts = []string{
+	strings.Repeat("Your parcel is out for delivery today. ", 6),
+	strings.Repeat("0123456789", 17),
+	strings.Repeat("abc[def]", 30),
+	strings.Repeat("您的验证码是1234，请勿泄露。", 8),
+	"short notice",
+	strings.Repeat("Ünïcödé täxt ", 20),
+}
+
 // oneOp executes op number i of a goroutine's list and returns (kind, digest of the result).
-func oneOp(ts *pdus.Tables, r *fw.Rng) (kind, digest string) {
+func oneOp(ts *pdus.Tables, r *fw.Rng, st *opState) (kind, digest string) {
 	ctx := context.Background()
 	t := ts.Types[r.Intn(len(ts.Types))]
 	lt := t.Lib()
-	switch r.Intn(18) {
+	switch r.Intn(21) {
+	case 18:
+		// an image that ends early: the error is a return value like any other
+		v, _ := pdus.Gen(t, r, -1, 0)
+		img := pdus.RefEncode(t, v)
+		if len(img) > 13 {
+			img = img[:12+r.Intn(len(img)-12)]
+		}
+		err := t.New().IDecode(img)
+		return "decode-truncated", fmt.Sprintf("%d|%v", len(img), err)
+	case 19, 20:
+		// the same text from several goroutines, each with its own reference byte
+		text := sharedTexts[r.Intn(len(sharedTexts))]
+		key := byte(r.U32())
+		var parts [][]byte
+		var err error
+		var what string
+		switch r.Intn(3) {
+		case 0:
+			var f datacoding.SMPPDataCoding
+			parts, f, err = protocol.EncodeSMPPContentAndSplit(ctx, text, datacoding.SMPPDataCoding(r.Pick(0, 1, 3, 8, 99)), key)
+			what = fmt.Sprintf("smpp/%d", f)
+		case 1:
+			var f datacoding.CMPPDataCoding
+			parts, f, err = protocol.EncodeCMPPContentAndSplit(ctx, text, datacoding.CMPPDataCoding(r.Pick(0, 8, 15)), key)
+			what = fmt.Sprintf("cmpp/%d", f)
+		default:
+			var f datacoding.ProtocolDataCoding
+			parts, f, err = protocol.NewBatchDataCodingEncoder().Protocol(protocol.SMPP).Content(text, key).
+				DataCodings([]datacoding.ProtocolDataCoding{datacoding.SMPP_CODING_GSM7_PACKED, datacoding.SMPP_CODING_Latin1, datacoding.SMPP_CODING_UCS2}).Build(ctx)
+			if f != nil {
+				what = fmt.Sprintf("batch/%d", f.ToInt())
+			}
+		}
+		if err == nil {
+			st.keep("split-shared-text", parts)
+		}
+		return "split-shared-text", what + "|" + digestParts(parts, err)
 	case 17:
 		// a body whose declared length exceeds its content: the encoder pads it (cmpp30 / smgp30 / sgip12 bodies)
 		keys := []string{"cmpp30.Submit/CMPP_SUBMIT", "cmpp30.Deliver/CMPP_DELIVER", "smgp30.Submit/Submit", "smgp30.Deliver/Deliver", "sgip12.Submit/SGIP_SUBMIT", "sgip12.Deliver/SGIP_DELIVER"}
@@ -121,6 +211,7 @@ func oneOp(ts *pdus.Tables, r *fw.Rng) (kind, digest string) {
 		b, err := pdus.Build(lt, v).IEncode()
 		// optional parameters are emitted in map order: compare the image with its optional tail as a set
 		if err == nil {
+			st.keep("encode", [][]byte{b})
 			if m := pdus.MandatoryLen(t, b); m >= 0 {
 				if tail, terr := tlvTail(b[m:]); terr == nil {
 					return "encode", fmt.Sprintf("%d|%s|%016x", len(b), digestBytes(b[:m]), fw.HashStr(tail))
@@ -150,10 +241,16 @@ func oneOp(ts *pdus.Tables, r *fw.Rng) (kind, digest string) {
 	case 6:
 		text, _ := randomText(r, 400)
 		parts, f, err := protocol.EncodeCMPPContentAndSplit(ctx, text, datacoding.CMPPDataCoding(r.Pick(0, 8, 9, 15, 3)), byte(r.U32()))
+		if err == nil {
+			st.keep("split-cmpp", parts)
+		}
 		return "split-cmpp", fmt.Sprintf("%d|%s", f, digestParts(parts, err))
 	case 7:
 		text, _ := randomText(r, 400)
 		parts, f, err := protocol.EncodeSMPPContentAndSplit(ctx, text, datacoding.SMPPDataCoding(r.Pick(0, 1, 3, 8, 99, 4)), byte(r.U32()))
+		if err == nil {
+			st.keep("split-smpp", parts)
+		}
 		return "split-smpp", fmt.Sprintf("%d|%s", f, digestParts(parts, err))
 	case 8:
 		text, _ := randomText(r, 300)
@@ -186,6 +283,9 @@ func oneOp(ts *pdus.Tables, r *fw.Rng) (kind, digest string) {
 		fs := "nil"
 		if f != nil {
 			fs = fmt.Sprintf("%T:%d", f, f.ToInt())
+		}
+		if err == nil {
+			st.keep("batch", parts)
 		}
 		return "batch", fs + "|" + digestParts(parts, err)
 	case 9:
@@ -262,6 +362,7 @@ func c13Case(c *fw.Case, perturb bool) {
 	}
 	got := make([][]string, G)
 	panics := make([]string, G)
+	changed := make([][2]string, G)
 	var wg sync.WaitGroup
 	start := make(chan struct{})
 	for g := 0; g < G; g++ {
@@ -272,8 +373,12 @@ func c13Case(c *fw.Case, perturb bool) {
 			got[g] = make([]string, nops)
 			<-start
 			if p, val, st := fw.Try(func() {
+				state := &opState{}
 				for i := 0; i < nops; i++ {
-					_, got[g][i] = oneOp(ts, r)
+					_, got[g][i] = oneOp(ts, r, state)
+					if changed[g][1] == "" && (i%16 == 15 || i == nops-1) {
+						changed[g][0], changed[g][1] = state.audit()
+					}
 				}
 			}); p {
 				panics[g] = fmt.Sprintf("%v\n%s", val, st)
@@ -294,10 +399,14 @@ func c13Case(c *fw.Case, perturb bool) {
 		for g := 0; g < G; g++ {
 			r := fw.NewRng(seeds[g])
 			want[g] = make([]string, nops)
+			state := &opState{}
 			for i := 0; i < nops; i++ {
-				k, d := oneOp(ts, r)
+				k, d := oneOp(ts, r, state)
 				kinds[k] = true
 				want[g][i] = d
+			}
+			if k, msg := state.audit(); msg != "" {
+				c.Failf("result-changed-after-return/"+k, "goroutine list %d run alone: %s", g, msg)
 			}
 		}
 	}); p {
@@ -309,6 +418,9 @@ func c13Case(c *fw.Case, perturb bool) {
 	}
 	c.Evals(uint64(2 * G * nops))
 	for g := 0; g < G; g++ {
+		if changed[g][1] != "" {
+			c.Failf("result-changed-after-return/"+changed[g][0], "goroutine %d of %d: %s, while the other goroutines made their own calls", g, G, changed[g][1])
+		}
 		if panics[g] != "" {
 			c.Failf("concurrent-panic", "goroutine %d of %d panicked under concurrency (the same list runs cleanly alone): %s", g, G, panics[g])
 			continue
@@ -319,7 +431,7 @@ func c13Case(c *fw.Case, perturb bool) {
 				r := fw.NewRng(seeds[g])
 				kind := ""
 				for j := 0; j <= i; j++ {
-					kind, _ = oneOp(ts, r)
+					kind, _ = oneOp(ts, r, nil)
 				}
 				c.Failf("differs-from-sequential/"+kind, "goroutine %d/%d op %d (%s): concurrent result %s, alone %s", g, G, i, kind, trunc200(got[g][i]), trunc200(want[g][i]))
 				break
@@ -347,7 +459,7 @@ func init() {
 	fw.Register(&fw.Prop{
 		ID:        "C13",
 		Technique: "Go race detector over a multi-goroutine mixed workload (configuration A: no hook handler installed, so monitors add no synchronisation) + sequential-equivalence oracle + pool-ownership monitor and Yield-hook schedule perturbation (configuration B)",
-		Rule: "each case: G in {2,4,8,16,32,64} goroutines, each running its own PRNG op list (encode, decode, dispatcher+String, String, both splitters, Build, six text codecs, pooled UCS-2, TLV container, message id, receipts) on its own values; results compared with the same lists executed alone; worker processes with GOMAXPROCS in {1,2,4,8,16}; " +
+		Rule: "each case: G in {2,4,8,16,32,64} goroutines, each running its own PRNG op list (encode, decode, dispatcher+String, String, both splitters, Build, six text codecs, pooled UCS-2, TLV container, message id, receipts, images that end early (the error is compared too), and a pool of six texts that several goroutines split at the same time each with its own reference byte) on its own values; results compared with the same lists executed alone, and the last 32 results each goroutine holds re-read every 16 calls and at the end of its list; worker processes with GOMAXPROCS in {1,2,4,8,16}; " +
 			"distinct_nontrivial = distinct (stage, G, op kind) combinations executed + distinct interleaving fingerprints (hash of the (goroutine, site) order at Yield points) in configuration B; race reports are deduplicated by the pair of innermost library frames",
 		Assumptions: []string{
 			"a clean run is 'no race observed in these executions', not race freedom; the race detector only sees accesses the workload performs",
